@@ -101,6 +101,9 @@ def run(ctx):
         d = T.gen_dag(r, r.range(8, 60 if ctx.thorough else 22), reject_w=5, merge_w=12)
         ops = T.gen_history(r, d, ntx=r.choice([2, 3, 3, 4]), p_dup=5, p_bad=3, p_flush=8, p_commit=14, p_action=9, p_probe=1)
         cases.append(("i%d" % i, "libc" if i % 3 == 1 else "mem", T.gid_of(d), d, ops))
+    for i in range(60 if ctx.thorough else 8):
+        d, ops = T.gen_merge_history(r, r.range(12, 34), ntx=r.choice([2, 3]), p_commit=12)
+        cases.append(("mgi%d" % i, r.choice(["mem", "libc"]), T.gid_of(d), d, ops))
     cases = T.replay_cases(ctx) or cases
     res, mm = T.run_cases(ctx, cases, "c08")
     if res is None:
